@@ -356,7 +356,7 @@ struct DomSim {
       int q = o - X_MOVE0;
       int x = q / NADDR, y = q % NADDR;
       if (!resolve_model(model, x, ix) || !resolve_model(model, y, iy)) return false;
-      if (ix == iy) return false;
+      if (ix == iy) return true;  // self-move: the implementation tests this != &rhs, so it is a supported no-op
       // X = move(Y): Y may be a descendant of X (documented), X must not lie inside Y
       if (is_prefix(iy, ix)) return false;
       return true;
@@ -364,8 +364,9 @@ struct DomSim {
     {
       int q = o - X_SWAP0;
       int x = q / NADDR, y = q % NADDR;
-      if (x >= y) return false;
+      if (x > y) return false;
       if (!resolve_model(model, x, ix) || !resolve_model(model, y, iy)) return false;
+      if (ix == iy) return x == y;  // self-swap (once per address)
       return !is_prefix(ix, iy) && !is_prefix(iy, ix);
     }
   }
@@ -538,9 +539,11 @@ struct DomSim {
         N& rx = *real_at<N>(*doc, ix);
         N& ry = *real_at<N>(*doc, iy);
         rx = std::move(ry);
-        ref::Value moved = *model_at(model, iy);
-        *model_at(model, iy) = ref::Value::mk(ref::Null);
-        *model_at(model, ix) = moved;  // if Y was inside X it disappears together with old X
+        if (ix != iy) {
+          ref::Value moved = *model_at(model, iy);
+          *model_at(model, iy) = ref::Value::mk(ref::Null);
+          *model_at(model, ix) = moved;  // if Y was inside X it disappears together with old X
+        }
       } else {
         int q = o - X_SWAP0;
         resolve_model(model, q / NADDR, ix);
